@@ -40,6 +40,7 @@ Definition label_for (t : tid) (r : rs) : option slabel :=
       if nth t (r_cancel r) false then Some (SCancel t)
       else match ts with
            | TNew _ => Some (SStart t)
+           | TRun => None
            | TWait _ _ => Some (SResume t)
            | TSend _ _ => match nth t (r_outcome r) None with
                           | Some true => Some (SWrite t)
@@ -101,6 +102,7 @@ Definition status (n : nat) (r : rs) (ts : tstate) : Z :=
   match ts with
   | TNew _ => if nth n (r_created r) false then 1 else 0
   | TWait _ _ => 1
+  | TRun => 1
   | TSend _ _ => 2
   | TDone c => c
   end%Z.
